@@ -11,6 +11,7 @@
 #include <cxxabi.h>
 #include <dlfcn.h>
 #include <map>
+#include <csignal>
 #include <pthread.h>
 #include <set>
 #include <unistd.h>
@@ -21,7 +22,7 @@
 
 namespace vf
 {
-int64_t               g_now_ns    = BASE_NS;
+std::atomic<int64_t>  g_now_ns{BASE_NS};
 int                   g_hash_mode = 0;
 thread_local ValStats g_vs;
 } // namespace vf
@@ -33,7 +34,7 @@ inline namespace _V2
 {
 steady_clock::time_point steady_clock::now() noexcept
 {
-    return time_point(nanoseconds(vf::g_now_ns));
+    return time_point(nanoseconds(vf::g_now_ns.load(std::memory_order_relaxed)));
 }
 } // namespace _V2
 } // namespace chrono
@@ -163,8 +164,39 @@ struct Args
     long        max_exec{50000000};
     int         part{0}, parts{1}; // program partition for parallel processes
     int         verbose{0};
+    int         clocked{0}; // programs with a clock-tick thread; oracle on deadlines (C04, C05, C17)
 };
 static const char* g_ckname = "";
+
+// crash context: a fatal sanitizer report / signal while a schedule runs is attributed to it
+static std::string (*g_crash_writer)(const char* why) = nullptr;
+static void crash_report(const char* why)
+{
+    if (!g_crash_writer)
+        _exit(3);
+    std::string p = g_crash_writer(why);
+    char        b[1200];
+    int         n = snprintf(b, sizeof b, "\nCRASH {\"clause\":\"%s\",\"replay\":\"%s\"}\n", why, p.c_str());
+    (void)!write(1, b, n);
+}
+static void on_signal(int sig)
+{
+    static volatile sig_atomic_t in = 0;
+    if (in)
+        _exit(4);
+    in = 1;
+    crash_report(sig == SIGALRM ? "hang: the schedule did not finish within the watchdog limit" : sig == SIGABRT ? "abort during a concurrent execution" : "fatal signal during a concurrent execution");
+    _exit(1);
+}
+extern "C" void __sanitizer_set_death_callback(void (*)(void)) __attribute__((weak));
+static void     on_san_death()
+{
+    static int in = 0;
+    if (in)
+        return;
+    in = 1;
+    crash_report("fatal sanitizer report (memory error) during a concurrent execution");
+}
 
 template<class A>
 struct E2
@@ -192,6 +224,7 @@ struct E2
     {
         Result      res[SCH_MAXT][SCH_MAXOPS];
         int         inv[SCH_MAXT][SCH_MAXOPS], ret[SCH_MAXT][SCH_MAXOPS];
+        int64_t     clk_inv[SCH_MAXT][SCH_MAXOPS], clk_ret[SCH_MAXT][SCH_MAXOPS];
         std::string probe; // serialised probe output
         std::string dump;
         bool        deadlock{false};
@@ -273,6 +306,8 @@ struct E2
         int                    tid;
         const std::vector<Op>* ops;
         Result*                res;
+        int64_t*               clk_inv;
+        int64_t*               clk_ret;
     };
     static void* worker(void* p)
     {
@@ -281,7 +316,9 @@ struct E2
         for (size_t i = 0; i < w->ops->size(); i++)
         {
             sch_op_begin((int)i, i == 0);
-            w->res[i] = w->ad->apply((*w->ops)[i]);
+            w->clk_inv[i] = g_now_ns.load(std::memory_order_relaxed);
+            w->res[i]     = w->ad->apply((*w->ops)[i]);
+            w->clk_ret[i] = g_now_ns.load(std::memory_order_relaxed);
             sch_op_end((int)i);
         }
         sch_thread_end();
@@ -297,9 +334,33 @@ struct E2
 
     long executions{0}, sched_steps{0};
 
+    const Prog*             cur_prog{nullptr};
+    const std::vector<int>* cur_prefix{nullptr};
+    static E2*&             self()
+    {
+        static E2* s = nullptr;
+        return s;
+    }
+    static std::string crash_writer(const char* why)
+    {
+        E2* e = self();
+        if (!e || !e->cur_prog)
+            return "";
+        // the schedule as far as it got
+        std::vector<int> ch;
+        for (int i = 0; i < sch_npoints(); i++)
+            ch.push_back(sch_point_choice(i));
+        return e->write_replay(*e->cur_prog, ch, why);
+    }
+
     Out run_schedule(const Prog& p, const std::vector<int>& prefix, int probe_kind)
     {
         Out out;
+        cur_prog       = &p;
+        cur_prefix     = &prefix;
+        self()         = this;
+        g_crash_writer = &crash_writer;
+        alarm(120);
         g_now_ns = BASE_NS;
         int r0   = g_races;
         {
@@ -310,7 +371,7 @@ struct E2
             WArg      wa[SCH_MAXT];
             for (int t = 0; t < p.nt; t++)
             {
-                wa[t] = WArg{&ad, t, &p.ops[t], out.res[t]};
+                wa[t] = WArg{&ad, t, &p.ops[t], out.res[t], out.clk_inv[t], out.clk_ret[t]};
                 pthread_create(&th[t], nullptr, worker, &wa[t]);
             }
             int dl = sch_run();
@@ -342,12 +403,187 @@ struct E2
             }
             if (probe_kind == 0)
                 out.dump = ad.dump();
-            out.probe = probe(ad, probe_kind);
+            if (probe_kind == 3)
+                clocked_suffix(ad, p, out);
+            else
+                out.probe = probe(ad, probe_kind);
         }
         out.races = g_races - r0;
         executions++;
         sched_steps += out.npoints;
         return out;
+    }
+
+    // ---- clocked programs: deadline oracle evaluated by the main thread after the join --------
+    std::string clocked_bad; // set by clocked_suffix when a clause of the current property fails
+    int ttl_of(const Op& o, int i) const
+    {
+        if (T.ttl_per_entry)
+            return o.ttl[i];
+        return cfg.ttl_ms;
+    }
+    void clocked_suffix(A& ad, const Prog& p, Out& out)
+    {
+        clocked_bad.clear();
+        const int U = 3;
+        int64_t   latest[MAXK + 1], earliest[MAXK + 1];
+        int       writers[MAXK + 1];
+        for (int k = 0; k <= MAXK; k++)
+        {
+            latest[k]   = -1;
+            earliest[k] = -1;
+            writers[k]  = 0;
+        }
+        // pre-state writes happen at BASE (single threaded)
+        {
+            int64_t t = BASE_NS;
+            for (auto& o : p.pre)
+            {
+                if (o.k == OpK::Advance)
+                    t += o.dt;
+                if (is_insert(o.k))
+                    for (int i = 0; i < o.n; i++)
+                    {
+                        latest[o.key[i]]   = t + (int64_t)ttl_of(o, i) * MS;
+                        earliest[o.key[i]] = latest[o.key[i]];
+                        writers[o.key[i]]++;
+                    }
+            }
+        }
+        for (int t = 0; t < p.nt; t++)
+            for (size_t i = 0; i < p.ops[t].size(); i++)
+            {
+                const Op& o = p.ops[t][i];
+                if (!is_insert(o.k))
+                    continue;
+                // successful? (a range counts as all-successful only if every element succeeded)
+                int  okcount = out.res[t][i].n ? out.res[t][i].v[0] : 0;
+                bool allok   = okcount == o.n;
+                for (int j = 0; j < o.n; j++)
+                {
+                    int k = o.key[j];
+                    if (okcount == 0)
+                        continue; // rejected: wrote nothing
+                    writers[k] += allok ? 1 : 2; // partial success: which element wrote is unknown -> no C05 claim
+                    int64_t hi = out.clk_ret[t][i] + (int64_t)ttl_of(o, j) * MS;
+                    int64_t lo = out.clk_inv[t][i] + (int64_t)ttl_of(o, j) * MS;
+                    if (hi > latest[k])
+                        latest[k] = hi;
+                    earliest[k] = lo; // only used when this is the single writer of k
+                }
+            }
+        std::string s;
+        char        b[256];
+        for (int step = 0; step < 5; step++)
+        {
+            int64_t now = g_now_ns.load();
+            int64_t stamped[MAXK + 1];
+            ad.stamped_deadlines(stamped);
+            Scan    sc  = ad.scan();
+            s += " |t=" + std::to_string((now - BASE_NS) / 1000) + "us " + scan_str(sc, U);
+            for (int k = 1; k <= U; k++)
+            {
+                if (sc.e[k].present && stamped[k] >= 0 && now >= stamped[k] && a.prop == 4)
+                {
+                    snprintf(b, sizeof b, "key %d is served at t=%lldns although the deadline the implementation recorded for it is t=%lldns", k, (long long)(now - BASE_NS), (long long)(stamped[k] - BASE_NS));
+                    clocked_bad = b;
+                }
+                if (sc.e[k].present && (latest[k] < 0 || now >= latest[k]) && a.prop == 4)
+                {
+                    snprintf(b, sizeof b, "key %d is served at t=%lldns although every write of it had expired by t=%lldns", k, (long long)(now - BASE_NS), (long long)(latest[k] - BASE_NS));
+                    clocked_bad = b;
+                }
+                if (!sc.e[k].present && writers[k] == 1 && earliest[k] > now && a.prop == 5)
+                {
+                    snprintf(b, sizeof b, "key %d is gone at t=%lldns although its only write cannot expire before t=%lldns", k, (long long)(now - BASE_NS), (long long)(earliest[k] - BASE_NS));
+                    clocked_bad = b;
+                }
+            }
+            if (T.has_clean)
+            {
+                Op o;
+                o.k      = OpK::Clean;
+                Result r = ad.apply(o);
+                Obs    ob = ad.observe();
+                int    maylive = 0;
+                for (int k = 1; k <= U; k++)
+                    if (latest[k] > now)
+                        maylive++;
+                s += " cleaned" + r.str() + " size=" + std::to_string(ob.size);
+                ad.stamped_deadlines(stamped);
+                for (int k = 1; k <= U; k++)
+                    if (stamped[k] >= 0 && now >= stamped[k] && a.prop == 17)
+                    {
+                        snprintf(b, sizeof b, "clean_expired_values() at t=%lldns left key %d resident although its recorded deadline is t=%lldns (size() %ld)", (long long)(now - BASE_NS), k, (long long)(stamped[k] - BASE_NS), ob.size);
+                        clocked_bad = b;
+                    }
+                if (ob.size > maylive && a.prop == 17)
+                {
+                    snprintf(b, sizeof b, "after clean_expired_values() at t=%lldns size() is %ld but at most %d entries can still be live", (long long)(now - BASE_NS), ob.size, maylive);
+                    clocked_bad = b;
+                }
+            }
+            g_now_ns += MS;
+        }
+        out.probe = s;
+    }
+
+    void run_clocked()
+    {
+        t0 = wall();
+        if (!(T.ttl_cache || T.ttl_map))
+            return;
+        auto mk = [&](OpK k, std::vector<int> keys, int allow, int ttl) {
+            Op o;
+            o.k     = k;
+            o.n     = (uint8_t)keys.size();
+            o.allow = allow;
+            o.rngq  = 255;
+            for (size_t i = 0; i < keys.size(); i++)
+            {
+                o.key[i] = keys[i];
+                o.ttl[i] = ttl;
+            }
+            return o;
+        };
+        std::vector<Op> wr;
+        std::vector<int> ttls = T.ttl_per_entry ? std::vector<int>{1, 2} : std::vector<int>{cfg.ttl_ms};
+        for (int t : ttls)
+        {
+            wr.push_back(mk(OpK::Insert, {1}, 3, t));
+            wr.push_back(mk(OpK::Insert, {2}, 3, t));
+            wr.push_back(mk(OpK::InsertRange, {2, 1}, 3, t));
+            wr.push_back(mk(OpK::Insert, {1}, 2, t));
+        }
+        Op find1 = mk(OpK::Find, {1}, 3, 0);
+        wr.push_back(find1);
+        std::vector<Pre> pres;
+        pres.push_back({"empty", {}});
+        pres.push_back({"k1", {mk(OpK::Insert, {1}, 3, T.ttl_per_entry ? 2 : cfg.ttl_ms)}});
+        long idx = 0;
+        for (auto& pre : pres)
+            for (size_t i = 0; i < wr.size(); i++)
+                for (size_t j = i; j < wr.size(); j++)
+                    for (int tick = 1; tick <= 2; tick++)
+                    {
+                        if ((idx++ % a.parts) != a.part)
+                            continue;
+                        Prog p;
+                        p.nt      = 3;
+                        p.pre     = pre.ops;
+                        p.prename = pre.name;
+                        p.ops[0]  = {wr[i]};
+                        p.ops[1]  = {wr[j]};
+                        Op adv;
+                        adv.k    = OpK::Advance;
+                        adv.dt   = tick * MS;
+                        p.ops[2] = {adv};
+                        assign_wids(p);
+                        explore_program(p, a.bound);
+                        if (capped)
+                            return;
+                    }
+        bound_completed = a.bound < 0 ? 99 : a.bound;
     }
 
     struct SeqOut
@@ -436,6 +672,8 @@ struct E2
         for (int t = 0; t < p.nt; t++)
             for (auto& o : p.ops[t])
                 body += "t" + std::to_string(t) + " " + op_ser(o) + " # " + op_str(o) + "\n";
+        if (a.clocked)
+            body += "clocked 1\n";
         body += "schedule";
         for (int c : choices)
             body += " " + std::to_string(c);
@@ -611,6 +849,7 @@ struct E2
         prog_outcomes.clear();
         if (a.prop == 6)
             build_cands(p);
+        clocked_bad.clear();
         std::vector<std::vector<int>> stack;
         stack.push_back({});
         bool first = true;
@@ -624,7 +863,7 @@ struct E2
             }
             std::vector<int> prefix = std::move(stack.back());
             stack.pop_back();
-            Out o = run_schedule(p, prefix, 0);
+            Out o = run_schedule(p, prefix, a.clocked ? 3 : 0);
             if (o.deadlock)
             {
                 Out oo   = o;
@@ -642,7 +881,7 @@ struct E2
             if (first)
             {
                 // determinism: the very same schedule must give the same observations twice
-                Out o2 = run_schedule(p, o.choice, 0);
+                Out o2 = run_schedule(p, o.choice, a.clocked ? 3 : 0);
                 if (o2.probe != o.probe || o2.dump != o.dump)
                 {
                     fprintf(stderr, "HARNESS ERROR: nondeterministic execution of %s\n", prog_str(p).c_str());
@@ -657,6 +896,8 @@ struct E2
             nsched++;
             schedules++;
             choice_points += o.npoints;
+            if (a.clocked && !clocked_bad.empty())
+                violation(p, o, clocked_bad);
             if (a.prop == 6)
                 check_linearizable(p, o.choice, o);
             else
@@ -970,6 +1211,8 @@ struct E2
                         s++;
                 }
             }
+            else if (!strncmp(line, "clocked 1", 9))
+                a.clocked = 1;
             else if (!strncmp(line, "props C", 7))
                 a.prop = atoi(line + 7);
             else if (!strncmp(line, "clause ", 7))
@@ -979,7 +1222,7 @@ struct E2
         g_hash_mode = cfg.hash;
         t0          = wall();
         printf("program: %s\n", prog_str(p).c_str());
-        Out o = run_schedule(p, choices, 0);
+        Out o = run_schedule(p, choices, a.clocked ? 3 : 0);
         if (o.deadlock)
         {
             printf("RESULT: deviation reproduced (deadlock)\n");
@@ -992,7 +1235,16 @@ struct E2
                 printf("  T%d %-50s invoked@%d returned@%d -> %s\n", t, op_str(p.ops[t][i]).c_str(), o.inv[t][i], o.ret[t][i], o.res[t][i].str().c_str());
         printf("  final: %s\n", o.probe.c_str());
         size_t before = viols.size();
-        if (a.prop == 6)
+        if (a.clocked)
+        {
+            if (!clocked_bad.empty())
+            {
+                VRec v;
+                v.clause = clocked_bad;
+                viols.push_back(v);
+            }
+        }
+        else if (a.prop == 6)
         {
             build_cands(p);
             check_linearizable(p, o.choice, o);
@@ -1106,6 +1358,8 @@ int main(int argc, char** argv)
             a.replay_file = nx();
         else if (s == "--hash")
             a.cfg.hash = atoi(nx());
+        else if (s == "--ttl")
+            a.cfg.ttl_ms = atoi(nx());
         else if (s == "--part")
             a.part = atoi(nx());
         else if (s == "--parts")
@@ -1114,6 +1368,8 @@ int main(int argc, char** argv)
             a.max_exec = atol(nx());
         else if (s == "--verbose")
             a.verbose = 1;
+        else if (s == "--clocked")
+            a.clocked = atoi(nx());
         else
         {
             fprintf(stderr, "unknown argument %s\n", s.c_str());
@@ -1122,11 +1378,20 @@ int main(int argc, char** argv)
     }
     g_hash_mode = a.cfg.hash;
     rng_seeds();
+    signal(SIGALRM, on_signal);
+    signal(SIGABRT, on_signal);
+    if (__sanitizer_set_death_callback)
+        __sanitizer_set_death_callback(on_san_death);
+    else
+        signal(SIGSEGV, on_signal);
     using AD = Ad<ck, cappuccino::thread_safe::yes>;
     E2<AD> e(a);
     if (!a.replay_file.empty())
         return e.run_replay();
-    e.run_all();
+    if (a.clocked)
+        e.run_clocked();
+    else
+        e.run_all();
     e.print_json();
     if (e.harness_races)
         return 3;
